@@ -27,9 +27,10 @@ func init() {
 	extraCmds["reader:list"] = runReader
 	register(&Prop{
 		ID: "C16", Level: "exploration", Quick: 96000, Thorough: 6000000,
-		Rule: "three trial families: (valid) a generated alignment rendered under two independent layouts (line width, letter case, LF/CRLF, descriptions) is read by all four readers under seeded schedules and chunked reads, records compared with the model and with each other; (mutated) a structured mutation of a valid file (blank lines anywhere, header without ID, lone '>', unequal lengths, non-IUPAC or control byte, no leading header, empty, only newlines, whitespace, byte flips, truncation) is read by all readers and by variants' reference finder: must return (records or an error), never panic or deadlock; (read-fault) a read error injected at every byte offset class: must return an error; non-trivial = valid: >= 2 records and a read split a line; mutated/fault: the mutation applied; distinct = distinct byte streams. Seeded structured mutation, not coverage-guided fuzzing.",
-		Gen:   genC16,
-		Check: checkC16,
+		Rule:     "three trial families: (valid) a generated alignment rendered under two independent layouts (line width, letter case, LF/CRLF, descriptions) is read by all four readers under seeded schedules and chunked reads, records compared with the model and with each other; (mutated) a structured mutation of a valid file (blank lines anywhere, header without ID, lone '>', unequal lengths, non-IUPAC or control byte, no leading header, empty, only newlines, whitespace, byte flips, truncation) is read by all readers and by variants' reference finder: must return (records or an error), never panic or deadlock; (read-fault) a read error injected at every byte offset class: must return an error; non-trivial = valid: >= 2 records and a read split a line; mutated/fault: the mutation applied; distinct = distinct byte streams. Seeded structured mutation, not coverage-guided fuzzing.",
+		NoShrink: true,
+		Gen:      genC16,
+		Check:    checkC16,
 		Required: []string{"read_split_inside_line", "read_split_crlf", "read_error"},
 	})
 }
